@@ -211,7 +211,8 @@ def families(thorough):
         for stop in ('X', 'eof'):
             s.append(Case(t, stop=stop, shards=two_shards, custom=True))
     if thorough:
-        for t in (["qd:3:SET SHARDING KEY TO '", 'select'], ["qd:1:SET SHARDING KEY TO '-", 'select'], ["qd:2:SET SHARD TO '", 'select']):
+        for t in (["qd:2:SET SHARDING KEY TO '", 'select', 'q:SHOW SHARD'], ["qd:1:SET SHARDING KEY TO '-", 'select'], ["qd:2:SET SHARD TO '", 'select'],
+                  ["qd:2:SET SHARDING KEY TO '1", 'begin', 'select', 'commit', 'select2']):
             s.append(Case(t, stop='X', shards=[(0,), (0,), (0,)], custom=True))
     for role in ('primary', 'replica', 'any', 'PRIMARY'):
         for t in (["q:SET SERVER ROLE TO '%s'" % role, 'select'], ["q:SET SERVER ROLE TO '%s'" % role, 'q:SHOW SERVER ROLE', 'begin', 'select', 'commit'],
